@@ -279,6 +279,34 @@ impl HsWorld {
         (Self { ls, pa, pb }, format!("hs {a} {b} {}", desc.join(",")))
     }
 
+    /// a connection dialled while the run is under way (also after a link is up): a fresh,
+    /// registered, not yet authenticated session on both nodes. op `hdial <aInit:nonce:idA:idB>`
+    async fn dial(&mut self, a: &str, b: &str, a_init: bool, nonce: u64) -> String {
+        let ida = self.pa.open(!a_init).await;
+        let idb = self.pb.open(a_init).await;
+        self.pa.register(ida, b, nonce);
+        self.pb.register(idb, a, nonce);
+        self.ls.push(HsLink { ida, idb, open_a: true, open_b: true, auth_a: false, auth_b: false });
+        format!("hdial {a_init}:{nonce}:{ida}:{idb}")
+    }
+
+    /// one end of connection `i` goes away for a reason outside the election (transport failure,
+    /// the session gave up): the session exits, the NodeServer forgets it. op `hfailA|hfailB <id>`
+    fn fail(&mut self, on_a: bool, i: usize) -> String {
+        let id = if on_a { self.ls[i].ida } else { self.ls[i].idb };
+        let open = if on_a { self.ls[i].open_a } else { self.ls[i].open_b };
+        if open {
+            if on_a {
+                self.pa.close(id);
+                self.ls[i].open_a = false;
+            } else {
+                self.pb.close(id);
+                self.ls[i].open_b = false;
+            }
+        }
+        format!("{} {id}", if on_a { "hfailA" } else { "hfailB" })
+    }
+
     fn obs(&self) -> String {
         let mut oa: Vec<u64> = self.ls.iter().filter(|l| l.open_a).map(|l| l.ida).collect();
         let mut ob: Vec<u64> = self.ls.iter().filter(|l| l.open_b).map(|l| l.idb).collect();
@@ -412,6 +440,43 @@ async fn hs_case(log: &mut Log, st: &mut Stats, rng: &mut Rng) {
         log.rec(op, w.obs());
     }
     log.rec("hend", w.obs());
+    // round 4: the run goes on — late / repeated dials (the link above is up and at rest), and, in
+    // one case in three, ends of connections going away at arbitrary moments
+    if rng.chance(2, 3) {
+        let with_failures = rng.chance(1, 3);
+        st.bump(if with_failures { "hs_late_with_failures" } else { "hs_late_dials" });
+        for _ in 0..rng.range(1, 3) {
+            let a_init = rng.chance(1, 2);
+            let op = w.dial(&a, &b, a_init, *rng.pick(&[0u64, 0, 1, 3, 5, 8])).await;
+            st.bump("hs_late_dial");
+            log.rec(op, w.obs());
+            let m = w.ls.len();
+            for _ in 0..rng.range(0, 6) {
+                let i = rng.below(m as u64) as usize;
+                if with_failures && rng.chance(1, 4) {
+                    let op = w.fail(rng.chance(1, 2), i);
+                    st.bump("hs_fail");
+                    log.rec(op, w.obs());
+                } else {
+                    let kind = *rng.pick(&[0usize, 0, 0, 1, 1, 1, 2, 3, 4, 4, 5, 5]);
+                    let op = w.exec(kind, i, st);
+                    st.bump("hs_step");
+                    log.rec(op, w.obs());
+                }
+            }
+        }
+        loop {
+            let todo = w.due();
+            if todo.is_empty() {
+                break;
+            }
+            let (kind, i) = *rng.pick(&todo);
+            let op = w.exec(kind, i, st);
+            st.bump("hs_step");
+            log.rec(op, w.obs());
+        }
+        log.rec("hend", w.obs());
+    }
     w.shutdown();
 }
 
@@ -528,6 +593,7 @@ async fn replay_ops(log: &mut Log, st: &mut Stats, path: &str) {
     let mut probe: Option<NodeStateProbe> = None;
     let mut hs: Option<HsWorld> = None;
     let mut hs_old: Vec<(u64, u64)> = Vec::new();
+    let mut hs_names: (String, String) = (String::new(), String::new());
     let mut map: std::collections::HashMap<u64, u64> = Default::default();
     let mut regs: std::collections::HashMap<u64, (String, u64)> = Default::default();
     let m = |map: &std::collections::HashMap<u64, u64>, p: &str| -> u64 {
@@ -575,6 +641,7 @@ async fn replay_ops(log: &mut Log, st: &mut Stats, path: &str) {
                 let conns: Vec<(bool, u64)> = parsed.iter().map(|c| (c.0, c.1)).collect();
                 let (w, line) = HsWorld::new(a, b, &conns).await;
                 hs_old = parsed.iter().map(|c| (c.2, c.3)).collect();
+                hs_names = (a.to_string(), b.to_string());
                 log.rec(line, "ok");
                 hs = Some(w);
             }
@@ -585,6 +652,29 @@ async fn replay_ops(log: &mut Log, st: &mut Stats, path: &str) {
                     let idx = hs_old.iter().position(|(ia, ib)| if kind % 2 == 0 { *ia == old } else { *ib == old });
                     if let Some(i) = idx {
                         let op = w.exec(kind, i, st);
+                        log.rec(op, w.obs());
+                    }
+                }
+            }
+            ["hdial", c] => {
+                if let Some(w) = hs.as_mut() {
+                    let f: Vec<&str> = c.split(':').collect();
+                    if let (Some(ai), Some(n), Some(ia), Some(ib)) =
+                        (f.first(), f.get(1).and_then(|x| x.parse::<u64>().ok()), f.get(2).and_then(|x| x.parse::<u64>().ok()), f.get(3).and_then(|x| x.parse::<u64>().ok()))
+                    {
+                        let (na, nb) = hs_names.clone();
+                        let op = w.dial(&na, &nb, *ai == "true", n).await;
+                        hs_old.push((ia, ib));
+                        log.rec(op, w.obs());
+                    }
+                }
+            }
+            [k, old] if *k == "hfailA" || *k == "hfailB" => {
+                if let Some(w) = hs.as_mut() {
+                    let on_a = *k == "hfailA";
+                    let old: u64 = old.parse().unwrap_or(0);
+                    if let Some(i) = hs_old.iter().position(|(ia, ib)| if on_a { *ia == old } else { *ib == old }) {
+                        let op = w.fail(on_a, i);
                         log.rec(op, w.obs());
                     }
                 }
